@@ -448,6 +448,9 @@ def _unbits(t, w):
     return _bits_funcs(w)[1](t)
 
 
+EXACT32 = [False]          # set by harnesses whose symbolic integers leave the 32-bit range: narrowing to a 32-bit type then wraps exactly too
+
+
 def _cast(v, src, dst):
     if src is dst or src == dst or dst.kind == 'O':
         return v
@@ -470,7 +473,7 @@ def _cast(v, src, dst):
                     return z3.SignExt(dst.bits - v.size(), v) if src.kind == "i" else z3.ZeroExt(dst.bits - v.size(), v)
                 # Int rep.  Narrowing to an 8/16-bit type wraps exactly (modular arithmetic on the integer); 32/64-bit targets are the
                 # index dtypes: in range by the harness bounds (unsigned<-signed of a negative 64-bit value is not modelled)
-                if dst.bits <= 16 and (src.bits > dst.bits or src.kind != dst.kind) and z3.is_int(v):
+                if (dst.bits <= 16 or (dst.bits == 32 and EXACT32[0])) and (src.bits > dst.bits or src.kind != dst.kind) and z3.is_int(v):
                     m = 1 << dst.bits
                     return (v % m) if dst.kind == "u" else ((v + (m >> 1)) % m) - (m >> 1)
                 return v
@@ -577,7 +580,8 @@ def _fp_apply(n, vals, dt):
             r = {"add": lambda: a + b, "subtract": lambda: a - b, "multiply": lambda: a * b,
                  "true_divide": lambda: (a / b if b != 0 else (float("nan") if a == 0 or a != a else float("inf") * (1 if (a > 0) == (str(b)[0] != "-") else -1))),
                  "negative": lambda: -a, "absolute": lambda: builtins.abs(a), "maximum": lambda: (a if a >= b or a != a else b),
-                 "minimum": lambda: (a if a <= b or a != a else b)}[n]()
+                 "minimum": lambda: (a if a <= b or a != a else b),
+                 "fmax": lambda: (b if a != a else a if b != b else (a if a >= b else b)), "fmin": lambda: (b if a != a else a if b != b else (a if a <= b else b))}[n]()
         except OverflowError:
             r = float("inf")
         return _round_float(r, dt)
@@ -612,12 +616,15 @@ def _fp_apply(n, vals, dt):
         r = z3.If(z3.Or(z3.fpIsNaN(fps[0]), z3.fpGEQ(fps[0], fps[1])), fps[0], fps[1])
     elif n == "minimum":
         r = z3.If(z3.Or(z3.fpIsNaN(fps[0]), z3.fpLEQ(fps[0], fps[1])), fps[0], fps[1])
+    elif n in ("fmax", "fmin"):          # like maximum / minimum, but a NaN operand is ignored
+        pick = z3.fpGEQ(fps[0], fps[1]) if n == "fmax" else z3.fpLEQ(fps[0], fps[1])
+        r = z3.If(z3.fpIsNaN(fps[0]), fps[1], z3.If(z3.Or(z3.fpIsNaN(fps[1]), pick), fps[0], fps[1]))
     else:
         raise ShimUnsupported("float ufunc " + n)
     return z3.fpToIEEEBV(r)
 
 
-_FP_UFUNCS = ("add", "subtract", "multiply", "true_divide", "negative", "absolute", "maximum", "minimum")
+_FP_UFUNCS = ("add", "subtract", "multiply", "true_divide", "negative", "absolute", "maximum", "minimum", "fmax", "fmin")
 
 
 def _uf_cast(v, src, dst):
@@ -855,11 +862,24 @@ class ndarray(_OpsMixin):
 
     @property
     def strides(self):
-        st, acc = [], self.dtype.itemsize
-        for s in reversed(self.shape):
+        """byte steps per axis, read off the positions of the cells in their store (views keep their parent's layout)"""
+        if self.ndim == 0:
+            return ()
+        st = []
+        acc = self.dtype.itemsize
+        for s_ in reversed(self.shape):
             st.append(acc)
-            acc *= s
-        return tuple(reversed(st))
+            acc *= s_
+        default = tuple(reversed(st))
+        if self._contig or self.size <= 1 or self.ndim > 2:
+            return default
+        pos, out = self._pos, []
+        if self.ndim == 1:
+            return ((pos[1] - pos[0]) * self.dtype.itemsize,)
+        r, c = self.shape
+        out.append((pos[c] - pos[0]) * self.dtype.itemsize if r > 1 else default[0])
+        out.append((pos[1] - pos[0]) * self.dtype.itemsize if c > 1 else default[1])
+        return tuple(out)
 
     @property
     def T(self):
@@ -1763,6 +1783,8 @@ _UF_IMPL = {
     "left_shift": lambda a, b, dt: _shift("l", a, b, dt),
     "right_shift": lambda a, b, dt: _shift("r", a, b, dt),
     "maximum": lambda a, b, dt: _ite(_cmp("ge", a, b, dt), a, b),
+    "fmax": lambda a, b, dt: _ite(_cmp("ge", a, b, dt), a, b),
+    "fmin": lambda a, b, dt: _ite(_cmp("le", a, b, dt), a, b),
     "minimum": lambda a, b, dt: _ite(_cmp("le", a, b, dt), a, b),
 }
 def _power(a, b, dt):
@@ -2018,7 +2040,7 @@ class ufunc:
 
 for _name, _nin in [("add", 2), ("subtract", 2), ("multiply", 2), ("floor_divide", 2), ("true_divide", 2), ("remainder", 2),
                     ("bitwise_xor", 2), ("bitwise_and", 2), ("bitwise_or", 2), ("left_shift", 2), ("right_shift", 2),
-                    ("maximum", 2), ("minimum", 2), ("less", 2), ("less_equal", 2), ("greater", 2), ("greater_equal", 2),
+                    ("maximum", 2), ("minimum", 2), ("fmax", 2), ("fmin", 2), ("less", 2), ("less_equal", 2), ("greater", 2), ("greater_equal", 2),
                     ("equal", 2), ("not_equal", 2), ("logical_and", 2), ("logical_or", 2), ("logical_xor", 2), ("power", 2),
                     ("negative", 1), ("absolute", 1), ("sign", 1), ("invert", 1), ("logical_not", 1), ("sqrt", 1)]:
     globals()[_name] = ufunc(_name, _nin)
@@ -2687,3 +2709,6 @@ class iinfo:
         self.dtype, self.bits, self.kind = dt, dt.bits, dt.kind
         self.min = 0 if dt.kind == "u" else -(1 << (dt.bits - 1))
         self.max = (1 << dt.bits) - 1 if dt.kind == "u" else (1 << (dt.bits - 1)) - 1
+
+
+nan, inf = float("nan"), float("inf")
